@@ -40,15 +40,57 @@ type Cand struct {
 	Fam    string `json:"fam"`
 	Size   int    `json:"size"`
 	TS     int    `json:"ts"`
-	Signer string `json:"signer"`
+	Signer string `json:"signer"` // whose key made the signature bytes
 	Idf    string `json:"idf"`
+	Over   Donor  `json:"over"` // what the signature bytes were made over: K "none" = this candidate's own content
+}
+
+// Donor names the genuine STH (of log Cand.Signer) whose signature bytes a candidate carries: a replayed signature.
+type Donor struct {
+	K    string `json:"k"` // "sig", or "none" / "" for a signature over the candidate's own content
+	Fam  string `json:"fam"`
+	Size int    `json:"size"`
+	TS   int    `json:"ts"`
+	Idf  string `json:"idf"`
+}
+
+// NoDonor is the `over` field of a plain candidate.
+var NoDonor = Donor{K: "none"}
+
+// IsReplay: the candidate carries signature bytes made over another content.
+func (c Cand) IsReplay() bool { return c.K == "sth" && c.Over.K == "sig" }
+
+// DonorCand is the genuine STH whose signature bytes a replay carries.
+func (c Cand) DonorCand() Cand {
+	return Cand{K: "sth", Fam: c.Over.Fam, Size: c.Over.Size, TS: c.Over.TS, Signer: c.Signer, Idf: c.Over.Idf, Over: NoDonor}
+}
+
+// Forge puts content (fam, size, ts) under the signature bytes of the genuine STH g.
+func Forge(fam string, size, ts int, idf string, g Cand) Cand {
+	return Cand{K: "sth", Fam: fam, Size: size, TS: ts, Signer: g.Signer, Idf: idf,
+		Over: Donor{K: "sig", Fam: g.Fam, Size: g.Size, TS: g.TS, Idf: g.Idf}}
 }
 
 func (c Cand) String() string {
 	if c.K != "sth" {
 		return c.K
 	}
-	return fmt.Sprintf("%s%d/t%d/%s/%s", c.Fam, c.Size, c.TS, c.Signer, c.Idf)
+	s := fmt.Sprintf("%s%d/t%d/%s/%s", c.Fam, c.Size, c.TS, c.Signer, c.Idf)
+	if c.IsReplay() {
+		s += fmt.Sprintf("/sigof:%s%d/t%d/%s", c.Over.Fam, c.Over.Size, c.Over.TS, c.Over.Idf)
+	}
+	return s
+}
+
+// norm gives candidates decoded from JSON without an `over` field the plain one.
+func (c Cand) norm() Cand {
+	if c.K == "sth" && c.Over.K != "sig" {
+		c.Over = NoDonor
+	}
+	if c.K != "sth" {
+		c.Over = Donor{}
+	}
+	return c
 }
 
 // Reply mirrors the reply record of the specification.
@@ -61,15 +103,16 @@ type Reply struct {
 
 // Step mirrors one element of the specification's history variable.
 type Step struct {
-	Op    string          `json:"op"`
-	Log   string          `json:"log"`
-	Sp    string          `json:"sp"`    // spelling of the log id: "canon" or an alias label
-	Fault string          `json:"fault"` // storage fault met by this request: none, commit, write, read, ctx
-	Cand  Cand            `json:"cand"`
-	Pf    string          `json:"pf"`
-	Reply Reply           `json:"reply"`
-	Pre   map[string]Cand `json:"pre"`
-	Post  map[string]Cand `json:"post"`
+	Op     string          `json:"op"`
+	Log    string          `json:"log"`
+	Sp     string          `json:"sp"`     // spelling of the log id: "canon" or an alias label
+	Fault  string          `json:"fault"`  // storage fault met by this request: none, commit, write, read, ctx
+	Replay string          `json:"replay"` // replayed signature: none, seen / unseen (donor offered before or not), xseen / xunseen (donor is another log's)
+	Cand   Cand            `json:"cand"`
+	Pf     string          `json:"pf"`
+	Reply  Reply           `json:"reply"`
+	Pre    map[string]Cand `json:"pre"`
+	Post   map[string]Cand `json:"post"`
 }
 
 // World holds the concrete counterparts of the specification's constants.
@@ -83,7 +126,8 @@ type World struct {
 	WitPEM  string
 	Trees   map[string]*ref.Tree
 	rawMemo map[string][]byte
-	sigMemo map[string]Cand // base64 log signature -> the candidate it was made for
+	sigs    map[string][]byte // genuine candidate -> its signature bytes (made once: a replay carries the very same bytes)
+	sigMemo map[string]Cand   // base64 log signature -> the candidate it was made for
 	rng     *mrand.Rand
 	mu      sync.Mutex
 }
@@ -91,7 +135,7 @@ type World struct {
 // NewWorld generates keys and the two tree families.
 func NewWorld(forkAt, maxSize int, rng *mrand.Rand) (*World, error) {
 	w := &World{ForkAt: forkAt, MaxSize: maxSize, Keys: map[string]*ecdsa.PrivateKey{}, IDs: map[string]string{},
-		IDBytes: map[string][]byte{}, Trees: map[string]*ref.Tree{}, rawMemo: map[string][]byte{}, sigMemo: map[string]Cand{}, rng: rng}
+		IDBytes: map[string][]byte{}, Trees: map[string]*ref.Tree{}, rawMemo: map[string][]byte{}, sigs: map[string][]byte{}, sigMemo: map[string]Cand{}, rng: rng}
 	for _, n := range []string{"L1", "L2", "LX", "bad"} {
 		for {
 			k, err := ecdsa.GenerateKey(elliptic.P256(), rand.Reader)
@@ -251,12 +295,30 @@ type infra string
 // Root of a candidate's tree head.
 func (w *World) Root(c Cand) []byte { return w.Trees[c.Fam].Root(c.Size) }
 
+// sigOf returns the signature bytes (a DigitallySigned) that key c.Signer made over the content of the plain
+// candidate c.  They are made once per candidate: ECDSA signatures are randomized, and a replayed signature is
+// the very bytes the witness met before.  Caller holds w.mu.
+func (w *World) sigOf(c Cand) []byte {
+	key := c.String()
+	if ds, ok := w.sigs[key]; ok {
+		return ds
+	}
+	ds, err := ref.Sign(w.Keys[c.Signer], ref.STHSignatureInput(uint64(1700000000000+c.TS), uint64(c.Size), w.Root(c)))
+	if err != nil {
+		panic(err)
+	}
+	w.sigs[key] = ds
+	w.sigMemo[base64.StdEncoding.EncodeToString(ds)] = c
+	return ds
+}
+
 // Raw materializes a candidate as the JSON bytes a feeder would send to log `target`.
 // The bytes are memoized: the witness stores and returns them verbatim.
 func (w *World) Raw(c Cand, target string) []byte {
 	if c.K != "sth" {
 		return []byte(`{"tree_size": "garbage`)
 	}
+	c = c.norm()
 	w.mu.Lock()
 	defer w.mu.Unlock()
 	key := c.String() + "@" + target
@@ -265,10 +327,20 @@ func (w *World) Raw(c Cand, target string) []byte {
 	}
 	root := w.Root(c)
 	ts := uint64(1700000000000 + c.TS)
-	input := ref.STHSignatureInput(ts, uint64(c.Size), root)
-	ds, err := ref.Sign(w.Keys[c.Signer], input)
-	if err != nil {
-		panic(err)
+	var ds []byte
+	if c.IsReplay() {
+		// the signature bytes of the donor, a genuine STH of log c.Signer with another content
+		d := c.DonorCand()
+		if bytes.Equal(w.Root(d), root) && d.Size == c.Size && d.TS == c.TS {
+			panic(infra("replayed signature over the donor's own content: " + c.String()))
+		}
+		ds = w.sigOf(d)
+		// a replayed signature must be a bad one in fact, judged by std crypto and not by the code under test
+		if k, ok := w.Keys[c.Signer]; !ok || ref.Verify(&k.PublicKey, ref.STHSignatureInput(ts, uint64(c.Size), root), ds) == nil {
+			panic(infra("replayed signature verifies over the forged content: " + c.String()))
+		}
+	} else {
+		ds = w.sigOf(c)
 	}
 	m := map[string]any{
 		"sth_version":         0,
@@ -292,7 +364,6 @@ func (w *World) Raw(c Cand, target string) []byte {
 		panic(err)
 	}
 	w.rawMemo[key] = b
-	w.sigMemo[base64.StdEncoding.EncodeToString(ds)] = c
 	return b
 }
 
